@@ -59,3 +59,8 @@ claim("C15",
       "Generated bin tables (1..24 chromosomes, both naming styles or no autosome-like names, null bins, PAR-X bins, all four estimators x by_chrom x skip_low x PAR genome) must be shifted by one constant that zeroes the harness restatement of the (two-level) estimator over the selected bins; generated samples with X/Y at the documented levels for their sex and reference sex (noise sd 0.01..0.3, 40..400 X bins, with/without Y, weights, PAR) must be inferred right by guess_xx and do_sex, moved by exactly +-1/0 on X by shift_xx, and get the 0/-1 flat pattern.",
       "Trusted: vk/models.py estimator restatements; PAR coordinates restated; estimator ties accepted either way; sex inference is statistical: decided per generated noise realisation (0 failures in 40 000 at the registered generator).",
       "DESIGN.md 5/C15")
+claim("C11",
+      "property-based testing (Hypothesis) with planted truth: synthetic step / flat profiles with known breakpoints segmented by haar and hmm-germline",
+      "Generated profiles (1..3 chromosomes, each a clean step between 0 and -1 / +0.585 / +1 in either order with 100..400 bins per side, or a flat control with or without a centromere gap; noise sd 0.01..0.1, weights 0.5..1, random bin sizes and spacing) are segmented; each stepped chromosome must give exactly two segments with the breakpoint within 5 bins and both means within 0.1, each flat arm exactly one segment.",
+      "Trusted: the noise generator (numpy default_rng seeded from the case); statistical claim decided per noise realisation (0 failures in 16 000 at the registered generator); hmm / hmm-tumor outside the claim; cbs needs R (absent).",
+      "DESIGN.md 5/C11")
